@@ -12,7 +12,7 @@ import numpy as np
 
 from .. import em, games, pm, seams, simpool
 from .. import prelude
-from ..core import HarnessError, Sim
+from ..core import HarnessError, Sim, SimKill, Violation
 
 LEVEL = "exploration"
 RULE = ("Each run draws (n = 3..4, hidden games of class SA/SAM/registry, starting knowledge = minimal + tape-drawn "
@@ -28,7 +28,7 @@ REAL_VS_STUB = {"real": ["gameplay.*", "run.best_states.get_best_exploitability"
                 "seams": ["chunk->worker scheduler", "process images", "gameplay.time (simulated clock)"]}
 ASSUMPTIONS = ["starting knowledge contains the minimal information", "n <= 4 (all subsets up to k)",
                "SimPool models process pools at task granularity; worker death is not injected"]
-PROBES = ["more_than_1000_reveal_sets", "one_game_object_reused_across_searches", "search_retried_after_interrupt", "best_states_on_a_stepped_environment", "chunk_with_2plus_tasks", "worker_ran_2plus_chunks", "more_workers_than_chunks",
+PROBES = ["meta_game_used_after_a_failed_call", "more_than_1000_reveal_sets", "one_game_object_reused_across_searches", "search_retried_after_interrupt", "best_states_on_a_stepped_environment", "chunk_with_2plus_tasks", "worker_ran_2plus_chunks", "more_workers_than_chunks",
           "starting_knowledge_beyond_minimal", "best_states", "meta_game", "sampled_several_games",
           "calibrated_against_real_pool", "n4"]
 TIERS = {
@@ -294,6 +294,20 @@ def _best_states(sim, n, comp_name, gap, cls, explorable, extras, k, values, con
             sim.fail("C11.result_depends_on_worker_processes_or_schedule", c)
 
 
+class _FlakyGap:
+    """The gap function handed to the meta-game; raises once when told to (fault seam)."""
+
+    def __init__(self, fn) -> None:
+        self.fn = fn
+        self.fail_next: type | None = None
+
+    def __call__(self, *a, **k):
+        if self.fail_next is not None:
+            exc, self.fail_next = self.fail_next, None
+            raise exc("injected: the gap function failed")
+        return self.fn(*a, **k)
+
+
 def _meta(sim, gameplay, n, comp_name, gap, explorable, k, hidden, configs, ctx, cache) -> None:
     from incomplete_cooperative.meta_game import MetaGame
     sim.probe("meta_game")
@@ -309,13 +323,28 @@ def _meta(sim, gameplay, n, comp_name, gap, explorable, k, hidden, configs, ctx,
         check_result(sim, res, n, comp_name, gap, K0, explorable, k, hidden, {**ctx, "processes": p}, cache)
         incomplete = _start_game(n, comp_name, K0, hidden)
         before = games.snapshot(incomplete)
-        meta = MetaGame(full, incomplete, gap)
+        flaky = _FlakyGap(gap)
+        meta = MetaGame(full, incomplete, flaky)
     if [c.id for c in meta.players] != explorable or meta.number_of_players != len(explorable):
         sim.fail("C11.meta_game_players_are_not_the_non_minimal_coalitions", ctx)
     order = sim.shuffled(list(range(len(res))), "meta-order")
     for idx in order[:40]:
         seq, val = res[idx]
         mc = games.coalition(sum(1 << explorable.index(c.id) for c in seq))
+        if sim.flip(1, 10, "gap-function-fails"):
+            # injected fault: the gap function raises during this call (a transient failure, an interrupt); the call
+            # fails, the same meta-game object is used afterwards and must still return the right quantities
+            flaky.fail_next = sim.pick([TimeoutError, KeyboardInterrupt, MemoryError], "gap-fault")
+            try:
+                meta.get_value(mc)
+            except BaseException as e:  # noqa: BLE001
+                if isinstance(e, (Violation, HarnessError, SimKill)):
+                    raise
+            flaky.fail_next = None
+            sim.fault("gap_function_failed_once")
+            sim.probe("meta_game_used_after_a_failed_call")
+            if sim.flip(1, 2, "ask-another-set-next"):
+                continue
         with sim.guard("C11.meta_game_raised"):
             mv = meta.get_value(mc)
         sim.checked()
